@@ -307,6 +307,35 @@ func (st *State) specBuiltin(env *Env, e *Expr) (SVal, types.Type, bool) {
 		a, _ := st.elab(env, e.Args[0])
 		t := st.resolveType("go.6river.tech/mmmbbb/filter", "*Condition")
 		return App(SInt, st.declareFun("spec.ast_of", []Sort{SStr}, SInt), st.scalar(a)), t, true
+	case "cb_unchanged":
+		// cb_unchanged(table, builder): every ghost field of the create builder is as in the old state
+		tn := e.Args[0].Name
+		t := st.e.ent.Tables[tn]
+		if t == nil {
+			st.unsupported("cb_unchanged: unknown table %s", tn)
+		}
+		a, _ := st.elab(env, e.Args[1])
+		r := st.scalar(a)
+		var cs []*Term
+		for _, c := range t.Cols {
+			v1, s1 := st.cbVal(st.view(env), t, r, c.Name)
+			v0, s0 := st.cbVal(env.old, t, r, c.Name)
+			cs = append(cs, Eq(v1, v0), Eq(s1, s0))
+		}
+		return And(cs...), tBool, true
+	case "rowindex":
+		// rowindex(entities, id): position in a query result (slice of entities) of the entity whose row id is id
+		a, _ := st.elab(env, e.Args[0])
+		sv, ok := a.(*SliceV)
+		if !ok {
+			st.unsupported("rowindex needs a slice of entities")
+		}
+		pos, ok := st.ghostObj["pos:"+sv.Base.S].(*Term)
+		if !ok {
+			st.unsupported("rowindex: the slice is not the result of a query on this path")
+		}
+		b, _ := st.elab(env, e.Args[1])
+		return Select(pos, st.scalar(b)), tInt, true
 	case "parses":
 		a, _ := st.elab(env, e.Args[0])
 		return App(SBool, st.declareFun("spec.parses", []Sort{SStr}, SBool), st.scalar(a)), tBool, true
@@ -394,6 +423,7 @@ func (st *State) sortSlice(x SVal) SVal {
 	if !ok {
 		st.unsupported("sort.Slice of a non-slice")
 	}
+	delete(st.resultSlices, sv.Base.S)
 	ls := st.e.leaves(sv.Elem)
 	var memOld *Term
 	if len(ls) == 1 {
